@@ -310,9 +310,17 @@ class DLTIFilter(object):
                 if len(self.b) >= k + 1:
                     num += x0 * self.b[k] * z**(-k)
 
+            # Numerator coefficients beyond the order of the denominator
+            for k in range(Nl, len(self.b)):
+                x0 = 0 * z
+                for i in range(0, Nl - 1):
+                    x0 += xic[i] * z**(i + 1)
+                num += x0 * self.b[k] * z**(-k)
+
             # Collect with respect to positive powers of the variable z
-            num = num.sympy * zsym**(Nl - 1)
-            denom = denom.sympy * zsym**(Nl - 1)
+            Nm = max(Nl, len(self.b))
+            num = num.sympy * zsym**(Nm - 1)
+            denom = denom.sympy * zsym**(Nm - 1)
 
         # Initial condition y[0], y[1], .....
         else:
@@ -394,7 +402,8 @@ class DLTIFilter(object):
         if not isiterable(ic):
             ic = (ic, )
 
-        if isinstance(x, (tuple, list, ndarray)):
+        if (isinstance(x, (tuple, list, ndarray))
+                and not isinstance(x, Sequence)):
             x = seq(x)
         elif not isinstance(x, (Sequence, DiscreteTimeDomainExpression)):
             raise ValueError(
